@@ -285,9 +285,9 @@ Proof.
       destruct (match_all _ (s_rest s) 0) as [[r n]|] eqn:E; [|apply REC].
       apply match_all_skipn in E. destruct E as [m [-> [-> Hm]]]. cbn. apply ok_adv; [exact Hs|exact Hm|reflexivity].
     + (* EPop *) destruct (s_stk s) as [|w st']; [exact TRK|].
-      destruct (strip_prefix w (s_rest s)) eqn:E; [|apply REC].
+      destruct (strip_prefix w (s_rest s)) as [r0|] eqn:E; [|apply REC].
       apply strip_prefix_skipn in E. destruct E as [E1 E2]. unfold lenN.
-      exact (ok_adv s (length w) t Hs E2 E1).
+      exact (ok_adv s (length w) r0 Hs E2 E1).
     + (* EPopAll *)
       destruct (match_all _ (s_rest s) 0) as [[r n]|] eqn:E; [|apply REC].
       apply match_all_skipn in E. destruct E as [m [-> [-> Hm]]]. cbn.
